@@ -69,13 +69,29 @@ func waitReceiversGone(base int) bool {
 	return false
 }
 
-// decodeAll decodes the frames in-process: that is what the socket must deliver.
+// framed: a valid header whose total length is the length of the unit - the receivers can tell where it ends.
+func framed(b []byte) bool {
+	return len(b) >= 6 && b[0] == 6 && b[1] == 0x10 && int(b[4])<<8|int(b[5]) == len(b)
+}
+
+// decodable reports whether the library decodes the frame in-process.
+func decodable(h string) bool {
+	var s knxnet.Service
+	_, err := knxnet.Unpack(unhex(h), &s)
+	return err == nil
+}
+
+// decodeAll decodes the frames in-process: that is what the socket must deliver. A correctly framed unit whose
+// body the decoder rejects is skipped by the receivers - the well-formed frames around it surface all the same.
 func decodeAll(frames []string) ([]knxnet.Service, *common.Fail) {
-	var out []knxnet.Service
+	out := []knxnet.Service{}
 	for _, h := range frames {
 		var s knxnet.Service
 		if _, err := knxnet.Unpack(unhex(h), &s); err != nil {
-			return nil, nil // not a well-formed frame for the library: outside this property's domain
+			if framed(unhex(h)) {
+				continue
+			}
+			return nil, nil // framing broken: outside this property's domain (C01 covers it)
 		}
 		out = append(out, s)
 	}
@@ -239,15 +255,19 @@ func c16RunInner(p c16Plan) *common.Fail {
 			if sent+w > len(p.Frames) {
 				w = len(p.Frames) - sent
 			}
+			exp := 0
 			for k := 0; k < w; k++ {
 				pc.WriteToUDP(unhex(p.Frames[sent+k]), caddr)
+				if decodable(p.Frames[sent+k]) {
+					exp++
+				}
 			}
 			if sent == 0 {
 				time.Sleep(time.Duration(p.ReaderPauseMs) * time.Millisecond)
 			}
-			g, closed := collect(sock.Inbound(), w, limit)
+			g, closed := collect(sock.Inbound(), exp, limit)
 			got = append(got, g...)
-			if closed || len(g) < w {
+			if closed || len(g) < exp {
 				return common.Failf("delivered-count", "udp: after %d datagrams only %d were delivered on Inbound() (closed=%v)", sent+w, len(got), closed)
 			}
 			sent += w
@@ -396,7 +416,7 @@ func c16RunInner(p c16Plan) *common.Fail {
 		}
 		k := int(atomic.AddInt32(&confSeq, 1))
 		pid := os.Getpid()
-		grp := &net.UDPAddr{IP: net.IPv4(239, 253, byte(1+pid%250), byte(1+k%250)), Port: 22000 + (pid*13+k)%20000}
+		grp := mcastAddr(253, pid, k)
 		pc, err := net.ListenUDP("udp4", grp)
 		if err != nil {
 			return nil
@@ -420,15 +440,19 @@ func c16RunInner(p c16Plan) *common.Fail {
 				if sent+w > len(p.Frames) {
 					w = len(p.Frames) - sent
 				}
+				exp := 0
 				for i := 0; i < w; i++ {
 					pc.WriteToUDP(unhex(p.Frames[sent+i]), grp)
+					if decodable(p.Frames[sent+i]) {
+						exp++
+					}
 				}
 				if sent == 0 {
 					time.Sleep(time.Duration(p.ReaderPauseMs) * time.Millisecond)
 				}
-				g, closed := collect(sock.Inbound(), w, limit)
+				g, closed := collect(sock.Inbound(), exp, limit)
 				got = append(got, g...)
-				if closed || len(g) < w {
+				if closed || len(g) < exp {
 					return common.Failf("delivered-count", "router socket: after %d datagrams to the group only %d were delivered on Inbound() (closed=%v)", sent+w, len(got), closed)
 				}
 				sent += w
@@ -713,6 +737,25 @@ func genFrames(rt *rapid.T, n int, maxLen int) []string {
 	return out
 }
 
+// withJunk inserts 1..3 units that are correctly framed but whose body the decoder rejects (a structure length that
+// is off, a lying embedded length, a truncated body under a consistent header): the receivers skip such a unit.
+func withJunk(rt *rapid.T, frames []string, maxLen int) []string {
+	for k := rapid.IntRange(1, 3).Draw(rt, "junk-frames"); k > 0; k-- {
+		for try := 0; try < 20; try++ {
+			kind := rapid.SampledFrom([]string{"tunnelres", "tunnelreq", "connres-ok", "connstateres", "routingind", "descrres", "searchres"}).Draw(rt, "junk-kind")
+			b, lens := common.RefEncode(common.GenFrame(rt, kind, rapid.SampledFrom(common.CemiKinds).Draw(rt, "junk-cemi")))
+			m := mutateFrame(rt, b, lens, true)
+			if len(m) > maxLen || !framed(m) || decodable(hex.EncodeToString(m)) {
+				continue
+			}
+			at := rapid.IntRange(0, len(frames)).Draw(rt, "junk-at")
+			frames = append(frames[:at], append([]string{hex.EncodeToString(m)}, frames[at:]...)...)
+			break
+		}
+	}
+	return frames
+}
+
 func genPlanC16(rt *rapid.T) c16Plan {
 	mode := rapid.SampledFrom([]string{"tcp-recv", "tcp-recv", "tcp-recv", "udp-recv", "tcp-send", "udp-send", "hpai", "tcp-close-race", "udp-close-race", "router-recv", "router-send"}).Draw(rt, "mode")
 	p := c16Plan{Mode: mode}
@@ -765,11 +808,17 @@ func genPlanC16(rt *rapid.T) c16Plan {
 			}
 		}
 		p.PeerClose = rapid.Bool().Draw(rt, "peer-close")
+		if rapid.IntRange(0, 3).Draw(rt, "junk") == 0 {
+			p.Frames = withJunk(rt, p.Frames, 2000)
+		}
 		if rapid.IntRange(0, 9).Draw(rt, "slow-reader") == 0 {
 			p.ReaderPauseMs = rapid.SampledFrom([]int{5, 60, 250}).Draw(rt, "reader-pause")
 		}
 	case "udp-recv", "router-recv":
 		p.Frames = genFrames(rt, rapid.IntRange(1, 40).Draw(rt, "frames"), 1024)
+		if rapid.IntRange(0, 3).Draw(rt, "junk") == 0 {
+			p.Frames = withJunk(rt, p.Frames, 1024)
+		}
 		if rapid.IntRange(0, 9).Draw(rt, "slow-reader") == 0 {
 			p.ReaderPauseMs = rapid.SampledFrom([]int{5, 60, 250}).Draw(rt, "reader-pause")
 		}
